@@ -19,6 +19,9 @@ except Exception:  # pragma: no cover - concrete replays
     z3 = None
 
 
+ALLOW_STR = False  # harnesses whose code under test only formats numbers in messages may set this
+
+
 class Abort(BaseException):
     """Path steering (infeasible path / discarded pre-state). BaseException on purpose."""
 
@@ -398,9 +401,13 @@ class SymReal:
         return f"Sym({self.e})"
 
     def __str__(self):
+        if ALLOW_STR:
+            return "<sym>"
         raise Inconclusive("str() of a symbolic real")
 
     def __format__(self, spec):
+        if ALLOW_STR:
+            return "<sym>"
         raise Inconclusive("format() of a symbolic real")
 
 
@@ -823,6 +830,18 @@ class SymbolicI:
     def observe(self, name, value):
         self.observed[name] = value
 
+    def pick(self, conds):
+        """index of a condition that holds in *a* model of the path condition (a guess to be proved
+        afterwards by the caller as an obligation); -1 if none does"""
+        ctx = self.ctx
+        if ctx.model is None:
+            ctx._refresh_model()
+        for i, c in enumerate(conds):
+            c = _b(c)
+            if c is True or (not isinstance(c, bool) and ctx._eval(c) is True):
+                return i
+        return -1
+
     def prove(self, label, cond, side=False, extra=()):
         """Obligation: PC ==> cond.  Decided by the solver; failures are collected."""
         rec = self.rec
@@ -943,6 +962,12 @@ class ConcreteI:
 
     def observe(self, name, value):
         self.observed[name] = value
+
+    def pick(self, conds):
+        for i, c in enumerate(conds):
+            if c:
+                return i
+        return -1
 
     def prove(self, label, cond, side=False, extra=()):
         for e in extra:
